@@ -421,6 +421,12 @@ def sameRun (a b : J × List Inst) : Bool :=
   a.1.matches b.1 && a.2.length == b.2.length &&
     (a.2.zip b.2).all fun p => renderKey p.1.key == renderKey p.2.key && p.1.args.matches p.2.args
 
+/-- equality of two runs without `dnull` on the left (`≈` is equality on such values:
+`approx_is_eq_on_values`) -/
+def exactRun (a b : J × List Inst) : Bool :=
+  a.1.clean && a.1.approx b.1 && a.2.length == b.2.length &&
+    (a.2.zip b.2).all fun p => renderKey p.1.key == renderKey p.2.key && p.1.args.clean && p.1.args.approx p.2.args
+
 def staticReply (P : Program) (obs : Option Obs) : String :=
   if !Call.plain P.top then "skip not-plain" else
   let s := staticProgramT P fqid
@@ -437,6 +443,12 @@ def staticReply (P : Program) (obs : Option Obs) : String :=
   -- … and of the refinement over the tree-shaped static phase (mapped pipelines, nested map calls)
   let fragT := callGraphAcyclicB P && noGuardList s.2 && wellTypedTB P && acyclicB P.table &&
     decide ((nodes.map fun n => fqid n.path).Nodup)
+  -- … and of the refinement with run-time `disabled` controls (modulo `dnull` ↦ null)
+  let fragE := callGraphAcyclicB P && wellTypedEB P && acyclicB P.table &&
+    decide ((nodes.map fun n => fqid n.path).Nodup) &&
+    (match obs with
+     | some obs => obs.outs.all fun o => J.clean o.2
+     | none => true)
   let (denV, rtV) :=
     match obs with
     | none => ("na", "na")
@@ -447,7 +459,8 @@ def staticReply (P : Program) (obs : Option Obs) : String :=
       let t := twoPhaseT P fqid ρ
       -- (the tree theorem says den = twoPhaseT exactly when fragT; compared for every program anyway)
       let same := sameRun d t &&
-        (!frag || sameRun d (twoPhaseM P fqid (storeOfNodes fqid (staticProgram P fqid).2 O)))
+        (!frag || sameRun d (twoPhaseM P fqid (storeOfNodes fqid (staticProgram P fqid).2 O))) &&
+        (!fragE || exactRun (eraseRun d) t)
       let jobDiff := obs.jobs.findSome? fun j =>
         if j.chunk then none else
         match t.2.find? (fun i => covers j.inst i.key) with
@@ -457,7 +470,7 @@ def staticReply (P : Program) (obs : Option Obs) : String :=
         ((fieldsOf t.1).filter fun kv => !obs.skip.contains kv.1)
         ((fieldsOf obs.top).filter fun kv => !obs.skip.contains kv.1)
       (if same then "eq" else "neq", match jobDiff.orElse (fun _ => topDiff) with | some d => d | none => "ok")
-  "\t".intercalate ["static", s!"frag={if frag || fragT then 1 else 0}", "den=" ++ denV, "rt=" ++ rtV,
+  "\t".intercalate ["static", s!"frag={if frag || fragT || fragE then 1 else 0}{if frag then "G" else ""}{if fragT then "T" else ""}{if fragE && !fragT then "E" else ""}", "den=" ++ denV, "rt=" ++ rtV,
     printStatic table s.1.exp nodes]
 
 end static
